@@ -188,11 +188,15 @@ class Gen(object):
         if t == "nonasync":
             return ["nonasync", self.new_site("n")]
         self.ovval += 1
+        val = self.ovval
+        if rnd.random() < self.p.get("p_equal_values", 0.0):
+            # values that compare equal but are different values to a program (1 == True == 1.0)
+            val = rnd.choice([1, True, 1.0, 0, False, 0.0])
         if t == "ov":
             names = [n for n in self.p["sv_names"] if n.startswith("sv")]
-            return ["ov", rnd.choice(names), self.ovval]
+            return ["ov", rnd.choice(names), val]
         names = [n for n in self.p["sv_names"] if n.startswith("at")]
-        return ["attr", rnd.choice(names), self.ovval]
+        return ["attr", rnd.choice(names), val]
 
     def block(self, nid, depth, bdepth, nmax, allow_yield=True):
         rnd = self.rnd
